@@ -276,6 +276,8 @@ def tensor_attr(interp: Any, t: SymTensor, name: str) -> Any:
         return None
     if name == "ndim":
         return t.shape.length(ctx)
+    if name == "__dict__":
+        return t.attrs  # instance attributes (ASSUMED: tensors keep python attributes in __dict__)
     meth = _TENSOR_METHODS.get(name)
     if meth is not None:
         return Builtin("Tensor." + name, lambda it, a, k, _m=meth: _m(it, [t] + list(a), k))
@@ -819,8 +821,10 @@ def externals(interp: Any, name: str) -> Optional[ModuleVal]:
                 ents.update(extra)
         return _mod(name, ents, opaque=True)
     if name == "torch.nn.functional":
-        return _mod(
-            "torch.nn.functional",
+        m = TorchModule("torch.nn.functional")
+        m.loaded = True
+        m.env.vars["__name__"] = "torch.nn.functional"
+        m.env.vars.update(
             {
                 "gelu": B("F.gelu", F_gelu),
                 "silu": B("F.silu", F_silu),
@@ -836,8 +840,9 @@ def externals(interp: Any, name: str) -> Optional[ModuleVal]:
                 "cross_entropy": B("F.cross_entropy", F_cross_entropy),
                 "mse_loss": B("F.mse_loss", F_mse_loss),
                 "pad": B("F.pad", F_pad),
-            },
+            }
         )
+        return m
     if name == "torch":
         ents = {
             "Tensor": TypeTok("Tensor"),
@@ -864,7 +869,11 @@ def externals(interp: Any, name: str) -> Optional[ModuleVal]:
             extra = hook(interp, name)
             if extra:
                 ents.update(extra)
-        return _mod("torch", ents)
+        m = TorchModule("torch")
+        m.loaded = True
+        m.env.vars.update(ents)
+        m.env.vars["__name__"] = "torch"
+        return m
     if name == "torch.fx":
         proxy = _mod("torch.fx.proxy", {"Proxy": TypeTok("Proxy")})
         ents = {"proxy": proxy, "Proxy": TypeTok("Proxy")}
@@ -882,6 +891,49 @@ def externals(interp: Any, name: str) -> Optional[ModuleVal]:
     if name.startswith("torch"):
         return _mod(name, {}, opaque=True)
     return None
+
+
+class GenericTorch:
+    """An UNMODELLED function (or sub-module) of torch: treated as an unknown function of its
+    arguments with the shape/dtype of its first tensor argument.  Any obligation of a run
+    that used one is flagged `generic_ops`; if it fails and the replay on the real code does
+    not reproduce the failure, the checker reports UNDECIDED, not a violation."""
+
+    def __init__(self, name: str):
+        self.name = name
+
+    def pyvc_getattr(self, interp: Any, attr: str) -> Any:
+        if attr.startswith("__"):
+            raise PyRaise("AttributeError", attr)
+        return GenericTorch(self.name + "." + attr)
+
+    def pyvc_call(self, interp: Any, args: List[Any], kwargs: Dict[str, Any]) -> Any:
+        interp.ctx.__dict__.setdefault("generic_ops", set()).add(self.name)
+        vals = list(args) + [kwargs[k] for k in sorted(kwargs)]
+        first = next((v for v in vals if isinstance(v, SymTensor)), None)
+        if first is None:
+            last = self.name.rsplit(".", 1)[-1]
+            if last.startswith(("is_", "has_", "_is_")) and not vals:
+                # an unmodelled global predicate (torch.is_grad_enabled(), torch.compiler.is_compiling(), ...):
+                # an unknown boolean -- both outcomes are explored
+                cache = interp.ctx.__dict__.setdefault("generic_flags", {})
+                if self.name not in cache:
+                    cache[self.name] = interp.ctx.fresh_bool("flag!" + self.name)
+                return cache[self.name]
+            raise OutOfReach(f"unmodelled torch function {self.name} without tensor arguments")
+        enc = []
+        for v in vals:
+            try:
+                to_V(interp.ctx, v)
+                enc.append(v)
+            except OutOfReach:
+                enc.append(Opaque(z3.Const(interp.ctx.fresh("arg"), V)))
+        return op_app(interp, "generic:" + self.name, enc, first.shape, first.dtype)
+
+
+class TorchModule(ModuleVal):
+    def missing(self, interp: Any, name: str) -> Any:
+        return GenericTorch(self.name + "." + name)
 
 
 class LazyExt:
